@@ -1,5 +1,6 @@
 //! The simulated worlds. Each links the real rsdd code.
 pub mod bdd;
+pub mod bddbig;
 pub mod cnf;
 pub mod ffi;
 pub mod lru;
@@ -20,9 +21,10 @@ static SDD: sdd::SddWorld = sdd::SddWorld;
 static QUERY: query::QueryWorld = query::QueryWorld;
 static SEMHASH: semhash::SemHashWorld = semhash::SemHashWorld;
 static FFI: ffi::FfiWorld = ffi::FfiWorld;
+static BDDBIG: bddbig::BddBigWorld = bddbig::BddBigWorld;
 
 pub fn all() -> Vec<&'static dyn World> {
-    vec![&TABLE, &LRU, &BDD, &SAT, &CNF, &SDD, &QUERY, &SEMHASH, &FFI]
+    vec![&TABLE, &LRU, &BDD, &SAT, &CNF, &SDD, &QUERY, &SEMHASH, &FFI, &BDDBIG]
 }
 
 pub fn lookup(name: &str) -> Option<&'static dyn World> {
